@@ -338,6 +338,37 @@ def check_case(ctx, case):
                          + 1.0):
                 ctx.violation('GoRT != HoRT - SoR on the estimate', case,
                               {'T': T, 'vals': vals})
+    # ---- array temperatures (1-D, and 2-D whose row count equals the
+    # number of entries: the shape a contraction over the wrong axis fits)
+    if compared and temps and len(pairs) >= 1:
+        ts_ = [temps[k % len(temps)] for k in range(3)]
+        grids = [np.array(ts_, dtype=float),
+                 np.array([ts_ for _ in range(len(pairs))], dtype=float),
+                 np.array([ts_ for _ in range(len(pairs) + 1)], dtype=float)]
+        scal = [observe(est.get_CpoR, t) for t in ts_]
+        if all('ok' in x for x in scal):
+            for g_ in grids:
+                ao = observe(est.get_CpoR, g_)
+                ctx.evals()
+                if 'exc' in ao:
+                    if g_.ndim == 1:
+                        ctx.violation('get_CpoR(1-D array) raised %s on an '
+                                      'estimate' % ao['exc'], case,
+                                      {'msg': ao['msg']})
+                    continue
+                arr = np.asarray(ao['ok'], dtype=float)
+                want_a = np.array([x['ok'] for x in scal], dtype=float)
+                want_a = want_a if g_.ndim == 1 else np.array(
+                    [want_a for _ in range(g_.shape[0])])
+                if arr.shape != want_a.shape or not np.allclose(
+                        arr, want_a, rtol=1e-10, atol=1e-12):
+                    ctx.violation('get_CpoR(array of shape %s) differs from '
+                                  'the scalar calls' % (g_.shape,), case,
+                                  {'array': repr(arr)[:200],
+                                   'scalars': want_a.tolist()[:2]})
+                    break
+            else:
+                ctx.count('array_temperature_grids_checked', len(grids))
     # ---- the caller's mapping is the caller's: changing it afterwards
     # must not change the estimate
     if compared and mapping and temps:
